@@ -729,25 +729,13 @@ class Gen(object):
         if r < 0.8 and allow_scope and depth < self.max_depth:
             # lambda: a function scope inside an expression
             self.budget -= 1
-            ps = self.rng.sample(POOL, self.rng.randint(0, 2))
-            dflt = ''
-            params = []
-            for i, p in enumerate(ps):
-                if self.rng.random() < 0.3:
-                    params.append('%s=%s' % (p, self.name()))
-                    dflt = '='
-                elif dflt:
-                    params.append('%s=%s' % (p, self.name()))
-                else:
-                    params.append(p)
-            if params and self.rng.random() < 0.2:
-                params.insert(self.rng.randint(1, len(params)), '/')
+            ptext, ps = self.params()
             cd, self.comp_depth = self.comp_depth, 0
             self.declared.append(set())
             body = self.expr(depth + 1, bound | set(ps), False)
             self.declared.pop()
             self.comp_depth = cd
-            return '(lambda %s: %s)' % (', '.join(params), body)
+            return '(lambda %s: %s)' % (ptext, body)
         if r < 0.9 and allow_scope:
             # comprehension (merged into the enclosing scope by supp and by CPython 3.12)
             t = self.target(self.special_name())
@@ -787,6 +775,46 @@ class Gen(object):
                 parts[i] = '*' + parts[i]
         form = rng.choice(['%s', '(%s)', '[%s]'])
         return form % ', '.join(parts)
+
+    def params(self):
+        """A parameter list with every kind of parameter, for defs and lambdas alike: positional (with and
+        without defaults), positional-only (`/`), *args or a bare `*`, keyword-only with and without defaults,
+        **kwargs. Names come from the pool (distinct within the list). Returns (text, names)."""
+        rng = self.rng
+        names = rng.sample(POOL, rng.randint(0, min(5, len(POOL))))
+        rng.shuffle(names)
+        npos = rng.randint(0, min(2, len(names)))
+        pos, rest = names[:npos], names[npos:]
+        parts = []
+        seen_default = False
+        for p_ in pos:
+            if seen_default or rng.random() < 0.3:
+                parts.append('%s=%s' % (p_, self.name()))
+                seen_default = True
+            else:
+                parts.append(p_)
+        if parts and rng.random() < 0.25:
+            parts.insert(rng.randint(1, len(parts)), '/')
+        used = list(pos)
+        if rest and rng.random() < 0.5:
+            star = rest.pop()
+            if rng.random() < 0.5:
+                parts.append('*' + star)
+                used.append(star)
+                nkw = rng.randint(0, min(2, len(rest)))
+            else:
+                rest.append(star)
+                nkw = rng.randint(1, min(2, len(rest)))
+                parts.append('*')
+            for _ in range(nkw):
+                k = rest.pop()
+                used.append(k)
+                parts.append('%s=%s' % (k, self.name()) if rng.random() < 0.5 else k)
+        if rest and rng.random() < 0.25:
+            k = rest.pop()
+            used.append(k)
+            parts.append('**' + k)
+        return ', '.join(parts), used
 
     def emit(self, ind, text):
         self.lines.append('    ' * ind + text)
@@ -860,23 +888,10 @@ class Gen(object):
             self.emit(ind, '%s(%s)' % (self.name(), e()))
         elif r < 0.5 and depth < self.max_depth:
             # def
-            ps = rng.sample(POOL, rng.randint(0, 2))
-            params = []
-            seen_default = False
-            for p in ps:
-                if rng.random() < 0.3 or seen_default:
-                    params.append('%s=%s' % (p, self.name()))
-                    seen_default = True
-                else:
-                    params.append(p)
-            if params and rng.random() < 0.25:
-                params.insert(rng.randint(1, len(params)), '/')     # positional-only parameters
-            if rng.random() < 0.15:
-                params.append('*, k=%s' % self.name())
-                ps = ps + ['k']
+            ptext, ps = self.params()
             if rng.random() < 0.2:
                 self.emit(ind, '@' + self.name())
-            self.emit(ind, '%sdef %s(%s):' % ('async ' if rng.random() < 0.1 else '', x, ', '.join(params)))
+            self.emit(ind, '%sdef %s(%s):' % ('async ' if rng.random() < 0.1 else '', x, ptext))
             self.body(ind + 1, depth + 1, 'function', bound, ps)
         elif r < 0.62 and depth < self.max_depth:
             base = '(%s)' % self.name() if rng.random() < 0.3 else ''
